@@ -3,6 +3,7 @@
 package certmagic
 
 import (
+	"context"
 	"fmt"
 	"path/filepath"
 	"sort"
@@ -239,4 +240,60 @@ func TestVerifC11(t *testing.T) {
 		}
 	}
 	o.Stat("hypothesis_failures", bad)
+
+	// (5) keys at the STORAGE BOUNDARY: the real code paths that turn an externally supplied
+	// name (SNI, Host header, configured subject) into storage keys must stay inside the
+	// namespace of the asset class and issuer — also where a call site does not go through a
+	// key-builder function
+	c11Boundary(t, o, reps)
+}
+
+func c11Boundary(t *testing.T, o *vOut, reps []string) {
+	ctx := context.Background()
+	st := vNewMem()
+	iss := vNewIssuer("ca-b", vNewCA("c11"))
+	cache, cfg := vNewCfg(st, []Issuer{iss})
+	defer cache.Stop()
+	hostile := []string{"../../../certificates/ca-b/victim.example.com/victim.example.com", "a/../../b", "..", "x/../../../etc/passwd",
+		"victim.example.com/../../x", "%2e%2e/%2e%2e/x", "..\\..\\x", "a/b", "/abs", "./.", "victim.example.com\x00.json"}
+	within := func(what, key, ns, name string) {
+		ok := strings.HasPrefix(key, ns+"/") && !strings.Contains(strings.TrimPrefix(key, ns+"/"), "/")
+		for _, c := range strings.Split(key, "/") {
+			if c == ".." || c == "." || c == "" {
+				ok = false
+			}
+		}
+		if !ok {
+			o.Mon("C11 storage-key-outside-namespace path="+what, map[string]any{"name": name, "key": key, "namespace": ns})
+		}
+		o.Stat("boundary_keys_checked", 1)
+	}
+	for _, name := range append(append([]string{}, hostile...), reps...) {
+		// distributed challenge lookup (what an HTTP-01 Host header or a TLS-ALPN SNI reaches)
+		base := len(st.Ops())
+		cfg.getChallengeInfo(ctx, name)
+		for _, op := range st.Ops()[base:] {
+			within("getChallengeInfo", op.Key, "acme/"+StorageKeys.Safe(iss.IssuerKey())+"/challenge_tokens", name)
+		}
+		// certificate resources of a subject
+		base = len(st.Ops())
+		cfg.storageHasCertResourcesAnyIssuer(ctx, name)
+		cfg.loadCertResourceAnyIssuer(ctx, name)
+		cfg.CacheManagedCertificate(ctx, name)
+		for _, op := range st.Ops()[base:] {
+			parts := strings.Split(op.Key, "/")
+			// certificates/<issuer>/<site>/<site>.<ext>; a name that sanitises to nothing gives
+			// certificates/<issuer>/.<ext>, still inside the issuer's namespace (C11_key_in_namespace)
+			ok := (len(parts) == 4 || len(parts) == 3) && parts[0] == prefixCerts && parts[1] == StorageKeys.Safe(iss.IssuerKey())
+			for _, c := range parts {
+				if c == ".." || c == "." || c == "" {
+					ok = false
+				}
+			}
+			if !ok {
+				o.Mon("C11 storage-key-outside-namespace path=certResources", map[string]any{"name": name, "key": op.Key})
+			}
+			o.Stat("boundary_keys_checked", 1)
+		}
+	}
 }
